@@ -120,6 +120,10 @@ def catalogue():
     add("nn.hash_based-hamming-coo", lambda: [seqs()], lambda a: nn.hash_based(a[0], max_edits=1, custom_distance="hamming", output_type="coo_matrix"))
     add("nn.kdtree", lambda: [seqs()], lambda a: sorted(nn.kdtree(a[0], max_edits=2)))
     add("nn.kdtree-parallel", lambda: [seqs()], lambda a: sorted(nn.kdtree(a[0], max_edits=1, n_cpu=2, compression=3)))
+    # several PARALLEL searches with different sequences / radii / modes in one process (each must be answered from its own arguments)
+    add("nn.kdtree-parallel-other", lambda: [seqs2() + seqs()], lambda a: sorted(nn.kdtree(a[0], max_edits=2, n_cpu=2)))
+    add("nn.kdtree-parallel-hamming", lambda: [seqs() + [s_[:-1] for s_ in seqs2()]],
+        lambda a: sorted(nn.kdtree(a[0], max_edits=1, n_cpu=3, custom_distance="hamming")))
     add("nn.kdtree-hamming", lambda: [seqs()], lambda a: sorted(nn.kdtree(a[0], max_edits=1, custom_distance="hamming", max_returns=1)))
     add("nn.kdtree-custom", lambda: [seqs()], lambda a: sorted(nn.kdtree(a[0], max_edits=2, custom_distance=levd, max_custom_distance=1)))
     add("nn.symdel-custom", lambda: [seqs()], lambda a: sorted(nn.symdel(a[0], max_edits=2, custom_distance=levd, max_custom_distance=1)))
@@ -257,6 +261,18 @@ def catalogue():
     add("plotting.labels_to_colors_hls-kws", lambda: [list("abacab"), dict(l=0.3, s=0.5)], lambda a: plotting.labels_to_colors_hls(a[0], palette_kws=a[1]), True)
     add("plotting.labels_to_colors_tableau", lambda: [list("abacab")], lambda a: plotting.labels_to_colors_tableau(a[0]), True)
     add("plotting.seqlogos", lambda: [["ACD", "ADD", "CCD"]], lambda a: with_fig(lambda ax: plotting.seqlogos(a[0], ax=ax)[1]))
+    # a plotting call that leaves its figure OPEN (as interactive use does), and a logo drawn without an axes argument afterwards:
+    # it gets its own new figure, whatever is open
+    add("plotting.rankfrequency-figure-left-open", lambda: [[3, 1, 2, 2, 5]],
+        lambda a: (plt.subplots(), plotting.rankfrequency(a[0])[0].get_xydata())[1])
+
+    def seqlogos_no_ax(seqs_):
+        ax_, cm_ = plotting.seqlogos(seqs_)
+        out_ = [cm_, [float(v) for v in ax_.figure.get_size_inches()], len(ax_.patches), len(ax_.lines), len(ax_.figure.axes),
+                str(ax_.get_xscale()), str(ax_.get_yscale())]
+        plt.close(ax_.figure)
+        return out_
+    add("plotting.seqlogos-no-ax", lambda: [["ACD", "ADD", "CCD"]], lambda a: seqlogos_no_ax(a[0]))
     add("plotting.density_scatter", lambda: [[1, 1, 2, 3, 1], [1, 1, 2, 3, 1]],
         lambda a: with_fig(lambda ax: [plotting.density_scatter(a[0], a[1], ax=ax, discrete=True).collections[0].get_offsets(), None][0]))
     add("plotting.similarity_clustermap", lambda: [lower()], lambda a: clustermap(a[0]), True)
